@@ -5,6 +5,18 @@ V = os.path.dirname(os.path.dirname(os.path.abspath(__file__)))
 
 # id -> (technique, level text, level note, design ref)
 CHECKS = {
+ "C05": ("exhaustive effect sets and colours per slot + proptest random styles; round trip through the reference SGR interpreter; Display == io::Write path; format-spec grid metamorphic relation",
+         "Generated-input search over style values with a round-trip oracle through an independent SGR interpreter and a strip/parse purity oracle; every spec of a fixed grid of width/fill/align/precision/alternate flags must reproduce the plain rendering byte for byte. All 4096 effect sets and all palette/indexed colours and RGB component values per slot are enumerated.",
+         "Trusted: reference SGR interpreter and VT parser (vcore), the crate's own strip_str for the 'strips to nothing' clause (cross-checked by the reference parser seeing only CSI m events).",
+         "DESIGN.md §4-C05"),
+ "C06": ("model-based testing of io::Write call histories: bounded-exhaustive (input x inner-writer script x driver) and proptest-generated histories against a scripted recording inner writer",
+         "Fault-script enumeration: every script of accept sizes {0,1,2,3,all} and errors {Interrupted, WouldBlock, Other} up to depth 3 (4 thorough) against 156 (1884) escape-rich inputs and 11 driver configurations, with an invariant checked after every call (inner bytes == strip(consumed prefix)), plus random long histories. Shrinks to a minimal history.",
+         "Trusted: the crate's own one-shot strip_bytes as the definition of 'stripped form' (its correctness is C01), std's write_all/write_fmt retry semantics, the scripted writer in vcore/src/fault.rs.",
+         "DESIGN.md §3.8, §4-C06"),
+ "C13": ("exhaustive 4096x4096 effect-set pairs against a u16 bit-set model, exhaustive colour laws, proptest setter/operator sequences against a record model",
+         "Exhaustive model comparison for the Effects algebra (all ordered pairs, all unary laws, iteration order, Debug text) and for the 16/256 colour conversions; stateful random operation sequences for Style against a record model.",
+         "Trusted: the bit-set/record models in the check (a dozen lines each).",
+         "DESIGN.md §4-C13"),
  "C07": ("exhaustive SGR sequences of <= 3 attribute groups + proptest grammar streams (whole and chunked) against a reference SGR interpreter over the reference VT parser; metamorphic combined == separate and delete-non-SGR relations; libFuzzer target 'sgr' in thorough",
          "Generated-input search with two independent oracles: a reference terminal model (R-SGR over R-VT, own style type) compared per character, and two metamorphic relations that involve only the extractor (combined vs separate sequences; deleting non-SGR sequences). Exhaustive over all sequences of up to three groups from a 57-group representative set, from two start states.",
          "Trusted: reference SGR interpreter harness/vcore/src/sgr.rs (ECMA-48 / T.416 / xterm / kitty rules as listed in DESIGN.md §3.3). Domain restrictions: direct replacement of one underline kind by another, blink, 22-29, 59, values > 255 and truncated extended colours are not generated.",
@@ -23,6 +35,8 @@ CHECKS = {
          "DESIGN.md §3.1, §4-C02"),
 }
 
+CATEGORY = {"C06": "fault_enumeration"}
+
 def entry(pid):
     tech, text, note, ref = CHECKS[pid]
     return {
@@ -32,7 +46,7 @@ def entry(pid):
         "evidence_file": f"evidence/{pid}.json",
         "replay_cmd_template": f"./check {pid} --replay {{path}}",
         "engine": "harness",
-        "level_claimed": {"category": "exploration", "text": text, "design_ref": ref},
+        "level_claimed": {"category": CATEGORY.get(pid, "exploration"), "text": text, "design_ref": ref},
         "level_note": note,
         "technique": tech,
     }
